@@ -9,6 +9,13 @@ Two extractors:
                      to Lean 4 terms over BitVec (widths and signedness taken from the
                      AST's types, so C++ wrap-around is reproduced by construction).
 
+Site selectors (see AGENT_GUIDE.md) plus, added for C14: `for:N` (condition of the N-th for loop),
+`ptroff:N` (integer operand of the N-th `pointer + integer`, widened to 64 bits), `index:N` (byte offset
+of the N-th `p[i]`: index widened to 64 bits times sizeof(*p)); constructors are found by class name;
+`callarg:operator()#k.i` reaches arguments of functor calls; a pointer used as a truth value or compared
+with nullptr becomes a Bool parameter `<name>_nonnull`; `convertor(x)` / `(*convertor)(x)` becomes the
+application of a function parameter `convertor<width>`.
+
 Output files are only rewritten when their content changes (so lake does not rebuild
 for nothing).  Exit status 0 = everything translated; a site that cannot be found or
 uses a construct outside the supported subset is reported in Gen/Status.lean and in
@@ -339,6 +346,8 @@ class Tr:
                         if nm2 and nm2 not in names: names.append(nm2)
                 if names:
                     return self.fv("_".join(names), "Bool")
+            if ck == "PointerToBoolean":
+                return self.ptr_nonnull(sub)
             raise Broken(f"cast kind {ck}")
         if k == "UnaryOperator":
             op = n["opcode"]; sub = inner[0]
@@ -360,6 +369,13 @@ class Tr:
             if op in ("&&", "||"):
                 return f"({self.expr(a)} {op} {self.expr(b)})"
             ta, tb, tr = ctype(a), ctype(b), ctype(n)
+            if ta[0] == "ptr" and tb[0] == "ptr" and op in ("==", "!="):
+                # comparison of a named pointer with nullptr
+                other = b if self.is_null(a) else a if self.is_null(b) else None
+                if other is None or (self.is_null(a) and self.is_null(b)):
+                    raise Broken("pointer comparison other than with nullptr")
+                e = self.ptr_nonnull(other)
+                return e if op == "!=" else f"(!{e})"
             ea, eb = self.expr(a), self.expr(b)
             if op in ("<<", ">>"):
                 sh_amt = self.shift_amount(b, eb)
@@ -413,6 +429,12 @@ class Tr:
                     raise Broken(f"pointer-valued call {nm}")
                 return self.fv((pre + "_" if pre else "") + nm2, lean_ty(ct))
             raise Broken("member call with arguments")
+        if k == "CXXOperatorCallExpr" and len(inner) == 3 and \
+                "endianness_convertor" in (inner[1].get("type", {}).get("qualType", "")):
+            # (*convertor)(x) / convertor(x): the byte-order conversion of width w is a function parameter
+            ct = ctype(n)
+            f = self.fv(f"convertor{ct[1]}", f"BitVec {ct[1]} → BitVec {ct[1]}")
+            return f"({f} {self.cast(self.expr(inner[2]), ctype(inner[2]), ct)})"
         if k == "CallExpr":
             # std::numeric_limits<T>::max()
             def callee_name(c):
@@ -465,6 +487,21 @@ class Tr:
             except Broken:
                 raise Broken(f"sizeof({q})")
         raise Broken(f"expression kind {k}")
+
+    def is_null(self, x):
+        while x.get("kind") in ("ImplicitCastExpr", "ParenExpr", "CStyleCastExpr") and x.get("inner"):
+            x = x["inner"][-1]
+        return x.get("kind") in ("CXXNullPtrLiteralExpr", "GNUNullExpr")
+
+    def ptr_nonnull(self, x):
+        """a named pointer (variable / member) used as a truth value: Bool parameter `<name>_nonnull`"""
+        while x.get("kind") in ("ImplicitCastExpr", "ParenExpr") and x.get("inner"):
+            x = x["inner"][-1]
+        if x.get("kind") == "DeclRefExpr":
+            return self.fv(x.get("referencedDecl", {}).get("name", "p") + "_nonnull", "Bool")
+        if x.get("kind") == "MemberExpr":
+            return self.fv(x.get("name", "p") + "_nonnull", "Bool")
+        raise Broken("pointer truth value of a compound expression")
 
     def shift_amount(self, b, eb):
         x = b
@@ -680,7 +717,7 @@ def find_function(docs, spec):
     cands = []
     for d in docs:
         for n in walk(d):
-            if n.get("kind") in ("FunctionDecl", "CXXMethodDecl") and n.get("name") == spec["name"]:
+            if n.get("kind") in ("FunctionDecl", "CXXMethodDecl", "CXXConstructorDecl") and n.get("name") == spec["name"]:
                 if not any(c.get("kind") == "CompoundStmt" for c in n.get("inner", [])):
                     continue
                 cands.append((d, n))
@@ -769,10 +806,35 @@ def select(fn, sel):
                     return ch[0]
                 i += 1
         raise Broken(f"{kind} #{nth} not found")
+    if kind == "for":
+        nth = int(arg or 0); i = 0
+        for n in walk(body):
+            if n.get("kind") == "ForStmt":
+                if i == nth:
+                    return n["inner"][2]          # [init, condition variable, condition, increment, body]
+                i += 1
+        raise Broken(f"for #{nth} not found")
+    if kind in ("ptroff", "index"):
+        # ptroff:N = integer operand of the N-th `pointer + integer`; index:N = index of the N-th `p[i]`
+        nth = int(arg or 0); i = 0
+        def is_ptr(x):
+            q = x.get("type", {}).get("desugaredQualType") or x.get("type", {}).get("qualType", "")
+            return q.strip().endswith("*")
+        for n in walk(body):
+            if kind == "ptroff" and n.get("kind") == "BinaryOperator" and n.get("opcode") == "+" and is_ptr(n):
+                a, b = n["inner"]
+                if i == nth:
+                    return b if is_ptr(a) else a
+                i += 1
+            if kind == "index" and n.get("kind") == "ArraySubscriptExpr":
+                if i == nth:
+                    return n                      # translate_site scales the index by the element size
+                i += 1
+        raise Broken(f"{kind} #{nth} not found")
     if kind == "callarg":
         callee, _, rest = arg.partition("#"); nth, _, argi = rest.partition("."); nth = int(nth or 0); argi = int(argi or 0); i = 0
         for n in walk(body):
-            if n.get("kind") in ("CallExpr", "CXXMemberCallExpr", "CXXNewExpr"):
+            if n.get("kind") in ("CallExpr", "CXXMemberCallExpr", "CXXNewExpr", "CXXOperatorCallExpr"):
                 nm = ""
                 for x in walk(n["inner"][0]) if n.get("inner") else []:
                     if x.get("kind") == "MemberExpr": nm = x.get("name", ""); break
@@ -817,9 +879,18 @@ def translate_site(site, consts, sizes, key):
     else:
         if node.get("kind") == "CompoundAssignOperator":
             nm, body, rty = tr.assign(node)
+        elif node.get("kind") == "ArraySubscriptExpr":
+            # byte offset of p[i]: index converted to 64 bits, times sizeof(*p)
+            base, idx = node["inner"]
+            elem = ctype(node)
+            body = f"({tr.cast(tr.expr(idx), ctype(idx), ('int', 64, ctype(idx)[2]))} * {elem[1] // 8}#64)"
+            rty = "BitVec 64"
         else:
             body = tr.expr(node)
             rty = lean_ty(ctype(node))
+            if site.get("select", "").startswith("ptroff"):
+                # pointer arithmetic: the integer operand is converted to the 64-bit pointer difference type
+                body = tr.cast(body, ctype(node), ("int", 64, ctype(node)[2])); rty = "BitVec 64"
         allp = list(tr.free)
     if site.get("select", "function") == "function":
         ptrs = [lname(p["name"]) for p in fn.get("inner", []) if p.get("kind") == "ParmVarDecl"
